@@ -166,7 +166,8 @@ fn line_text(l: &L) -> String {
         L::ResumeLabel(l) => format!("RESUME {}", l),
         L::Call(s, None) => s.clone(),
         L::Call(s, Some(e)) => format!("{} {}", s, ex_text(e)),
-        L::AssignFn(f) => format!("V% = {}(1)", f),
+        // an operand is pending on the value stack during the call: whatever the callee leaves there shows
+        L::AssignFn(f) => format!("V% = 100 + {}(1) - 100", f),
         L::End => "END".into(),
         L::Sub(n, false) => format!("SUB {}", n),
         L::Sub(n, true) => format!("SUB {} (X%)", n),
@@ -812,8 +813,12 @@ struct RealRun {
     table: String,
     class: Vec<u8>,
     target: Vec<usize>,
-    /// per pc: b'u' PushRegisters, b'o' PopRegisters, b'w' anything else
+    /// per pc: b'u' PushRegisters, b'o' PopRegisters, b'c' PushRet, b'r' PopRet, b'l' ResumeLabel, b'g' GoSub,
+    /// b't' Return, b'w' anything else
     frame_op: Vec<u8>,
+    /// per pc of a `ResumeLabel`: the FOR depth the generator recorded for the target address
+    /// (`label_depths`, 1a4d83d)
+    resume_fd: Vec<Option<usize>>,
     /// per pc: is it a recorded statement address
     stmt_start: Vec<bool>,
 }
@@ -854,7 +859,17 @@ fn run_real(text: &str, want_trace: bool, budget: u64) -> Result<RealRun, String
             Instruction::PushRet(_) => b'c',
             Instruction::PopRet => b'r',
             Instruction::ResumeLabel(_) => b'l',
+            Instruction::GoSub(_) => b'g',
+            Instruction::Return(_) => b't',
             _ => b'w',
+        })
+        .collect();
+    let resume_fd: Vec<Option<usize>> = res
+        .instructions
+        .iter()
+        .map(|ip| match &ip.element {
+            Instruction::ResumeLabel(AddressOrLabel::Resolved(a)) => res.label_depths.get(a).map(|d| d.0),
+            _ => None,
         })
         .collect();
     let mut stmt_start = vec![false; n + 1];
@@ -950,7 +965,7 @@ fn run_real(text: &str, want_trace: bool, budget: u64) -> Result<RealRun, String
         let b = snaps.borrow();
         (b.0.clone(), b.1)
     };
-    Ok(RealRun { out, end, snaps: sn, capped, code, addrs, table, class, target, frame_op, stmt_start })
+    Ok(RealRun { out, end, snaps: sn, capped, code, addrs, table, class, target, frame_op, resume_fd, stmt_start })
 }
 
 /// the events the Lean machine is driven with, derived from consecutive snapshots
@@ -1125,17 +1140,24 @@ fn record(cx: &mut Ctx, job: &Job, done: Done) -> Option<Failure> {
     // ---- register frames
     if job.trace && !real.snaps.is_empty() {
         // ModelVsImpl: the stack height before every executed instruction, by the Lean frame model
-        let ops: Vec<&str> = real
+        let ops: Vec<String> = real
             .snaps
             .iter()
             .map(|sn| match real.frame_op.get(sn.pc) {
-                Some(b'u') => "u",
-                Some(b'o') => "o",
-                Some(b'c') => "c",
-                Some(b'r') => "r",
-                // RESUME label leaves the procedures only when there is an error to resume from
-                Some(b'l') if sn.ea.is_some() => "l",
-                _ => "w",
+                Some(b'u') => "u".to_owned(),
+                Some(b'o') => "o".to_owned(),
+                Some(b'c') => "c".to_owned(),
+                Some(b'r') => "r".to_owned(),
+                // RESUME label leaves the procedures (and the loops the label is not in) only when there
+                // is an error to resume from
+                Some(b'l') if sn.ea.is_some() => match real.resume_fd.get(sn.pc).copied().flatten() {
+                    Some(d) => format!("(l {})", d),
+                    None => "l".to_owned(),
+                },
+                Some(b'g') => "g".to_owned(),
+                // RETURN restores the height recorded by the GOSUB it answers (8f09b9b); without one it fails
+                Some(b't') if !sn.gosub.is_empty() => "t".to_owned(),
+                _ => "w".to_owned(),
             })
             .collect();
         let want: Vec<String> = real.snaps.iter().map(|sn| sn.regs.to_string()).collect();
@@ -1574,6 +1596,125 @@ fn gosub_history(rng: &mut Rng) -> (Prog, String) {
         if recursion { "recursion," } else { "" }
     );
     (p, sig)
+}
+
+
+// ---- B2. RETURN from inside the routine's own loops and SELECT CASE blocks (8f09b9b)
+
+const CALLERS: [&str; 7] = ["none", "for", "forstep", "forneg", "while", "select", "if"];
+
+/// GOSUB issued inside `kc` (main module, a SUB called from a FOR body, or a FUNCTION called with an operand
+/// pending); the routine returns from inside the constructs `nest` (guarded: only in one iteration)
+fn return_out(kc: &str, nest: &[&str], guarded: bool, place: usize) -> Prog {
+    let mut p = Prog::new();
+    let mut b: Vec<L> = vec![];
+    if kc != "none" {
+        b.extend(open(kc, 1));
+    }
+    b.push(tok("a"));
+    b.push(L::Gosub(s("RT")));
+    b.push(L::PrintVars(s("back"), vec![loop_var(if kc == "none" { "for" } else { kc }, 1)]));
+    if kc != "none" {
+        b.extend(close(kc, 1));
+    }
+    b.push(L::PrintVars(s("end"), vec![loop_var(if kc == "none" { "for" } else { kc }, 1)]));
+    // the stacks must be sane afterwards: another nest runs its full course
+    b.push(L::For { var: s("I3%"), from: 1, to: Ex::K(2), step: None });
+    b.push(L::Select(Ex::K(2)));
+    b.push(L::Case(vec![2]));
+    b.push(L::PrintVars(s("z"), vec![s("I3%")]));
+    b.push(L::EndSelect);
+    b.push(L::Next);
+    let mut r: Vec<L> = vec![L::Label(s("RT")), tok("r0")];
+    for (j, k) in nest.iter().enumerate() {
+        r.extend(open(k, 2 + j));
+        r.push(L::Tok(format!("r{}", j + 1)));
+    }
+    let last = *nest.last().unwrap();
+    if guarded && !matches!(last, "select" | "if") {
+        r.push(L::If(Cond::Eq(loop_var(last, 1 + nest.len()), 2)));
+        r.push(L::Return(None));
+        r.push(L::EndIf);
+    } else {
+        r.push(L::Return(None));
+    }
+    r.push(tok("rx"));
+    for (j, k) in nest.iter().enumerate().rev() {
+        r.extend(close(k, 2 + j));
+    }
+    r.push(tok("ry"));
+    r.push(L::Return(None));
+    match place {
+        0 => {
+            p.extend(b);
+            p.push(L::End);
+            p.extend(r);
+        }
+        1 => {
+            p.push(L::For { var: s("W%"), from: 1, to: Ex::K(2), step: None });
+            p.push(L::Call(s("P"), None));
+            p.push(L::PrintVars(s("caller"), vec![s("W%")]));
+            p.push(L::Next);
+            p.push(L::End);
+            p.push(L::Sub(s("P"), false));
+            p.extend(b);
+            p.push(L::Call(s("Q"), None));
+            p.push(L::Goto(s("FIN")));
+            p.extend(r);
+            p.push(L::Label(s("FIN")));
+            p.push(L::EndSub);
+            p.push(L::Sub(s("Q"), false));
+            p.push(tok("q"));
+            p.push(L::EndSub);
+        }
+        _ => {
+            p.push(L::For { var: s("W%"), from: 1, to: Ex::K(2), step: None });
+            p.push(L::AssignFn(s("G%")));
+            p.push(L::PrintVars(s("caller"), vec![s("W%"), s("V%")]));
+            p.push(L::Next);
+            p.push(L::End);
+            p.push(L::Function(s("G%")));
+            p.extend(b);
+            p.push(L::SetFnResult(s("G%"), 7));
+            p.push(L::Goto(s("FIN")));
+            p.extend(r);
+            p.push(L::Label(s("FIN")));
+            p.push(L::EndFunction);
+        }
+    }
+    p
+}
+
+fn return_out_family(cx: &mut Ctx, thorough: bool) {
+    for kc in CALLERS {
+        for k1 in INNER {
+            let mut nests: Vec<Vec<&str>> = vec![vec![k1]];
+            for k2 in INNER {
+                if thorough || matches!(k2, "for" | "select" | "while") {
+                    nests.push(vec![k1, k2]);
+                }
+            }
+            for nest in nests {
+                for guarded in [false, true] {
+                    for place in 0..3usize {
+                        if !thorough && place > 0 && (guarded || nest.len() > 1) && kc != "for" {
+                            continue;
+                        }
+                        let p = return_out(kc, &nest, guarded, place);
+                        let sig = format!(
+                            "return-out:from-{}:gosub-in-{}:{}",
+                            nest.join(">"),
+                            kc,
+                            ["main", "sub", "function"][place]
+                        );
+                        cx.counter += 1;
+                        let trace = cx.model_every > 0;
+                        cx.jobs.push(Job { p, sig, class: "return-out-of-loop".to_owned(), trace, matrix_key: None, big: false, frames: false });
+                    }
+                }
+            }
+        }
+    }
 }
 
 // ---- C. GOTO out of loops
@@ -2667,6 +2808,10 @@ fn main() {
     }
     run_jobs(&mut cx);
 
+    if want("B") {
+        return_out_family(&mut cx, thorough);
+        run_jobs(&mut cx);
+    }
     eprintln!("gosub done {:?}", t0.elapsed());
     // C. GOTO out of loops
     for ko in if want("C") { &LOOPS[..] } else { &LOOPS[..0] } {
